@@ -53,6 +53,8 @@ TRUSTED = [
     'comparison of every recorded cut); the temporaries of the slice handlers themselves are tied only by the purity sweep',
     'recorded calls on a Compare whose operands are statement placeholders (temporary state of the _all handler) are tallied, '
     'not replayed',
+    'remainder of a cut: wherever CPython reads the remainder source to the same structure as the remainder tree, all '
+    'positions must agree (class remainder|pos!=parse); structural disagreements of the remainder are left to C01/C04',
     'token conservation counts identifiers, numbers, strings (modulo re-indentation of continuation lines), f-string '
     'middles and comments; keywords (except True/False/None) and the word `set` are structure the move may add or drop',
     'recorded calls whose put_loc has end before start (produced by the defect C07-F1 before its repair) lie outside the '
@@ -425,6 +427,26 @@ def run_op(src, op, opts):
         emptied = op[0] == 'slice' and op[3] == 0 and op[4] == n_field
         if d1 != d2 and not (emptied and opts.get('norm') is not True and ast.dump(B.a) == ast.dump(Cc.a)):
             failc('cut!=delete-tree', 'cut left a different tree than delete: ' + util.first_diff(d1, d2))
+    # (4b) the remainder is a consistent tree: where CPython reads the remainder source to the same structure, every position of
+    # the remainder tree is the position CPython gives (an enclosing block end, a decorator call, a sibling left at a stale
+    # column are invisible to cut == delete because both share the code); and a follow-up copy of each sibling of the cut
+    # reads exactly the text CPython locates for it
+    try:
+        ref = ast.parse(B.src)
+    except SyntaxError:
+        ref = None
+    if ref is not None and isinstance(B.a, ast.Module) and ast.dump(ref) == ast.dump(B.a):
+        d1, d2 = util.dump_pos(B.a), util.dump_pos(ref)
+        if d1 != d2:
+            bad = next(((type(x).__name__, ops._pos(x), ops._pos(y)) for x, y in zip(ast.walk(B.a), ast.walk(ref))
+                        if ops._pos(x) != ops._pos(y)), None)
+            out['fails'].append((f'C07|cut{"" if op[0] == "copy" else "_slice"}|remainder|pos!=parse',
+                                 f'after the cut the remainder tree has positions CPython does not give for the remainder source: first '
+                                 f'{bad} (node, live, parsed); remainder {B.src[:160]!r}'))
+        else:
+            out['tally'].append(('remainder', 'pos==parse'))
+    else:
+        out['tally'].append(('remainder', 'not-compared'))
     # (5) tokens and comments conserved
     b0 = ops.token_bag(src0)
     b1 = ops.token_bag(B.src)
@@ -858,6 +880,10 @@ SHAPES = [
     'match v:\n    case "é" | ü.ñ | É() | ñ: pass\n    case ("é" | ñ): pass\n    case [ñ, "é" | ü | ä]: pass\n',
     'def f(a, b, /, c, *, d, e=1): pass\ng = lambda ä, ö, /, ü, *, é=1, ñ: 0\ndef h(*, k): pass\ndef i(a, /): pass\ndef j(a, *, k, **kw): pass\n',
     'y = é, ñ, \\\n  ü\nfor é, ñ in ü, ä,  \\\n  ö: pass\nz = "é", "ñ" ,  # c\nw[é, ñ,\n  ü] = 1\n',
+    '@deco(a, b)\n@other\ndef f(): pass\n@é(ñ, ü, k=ä)\n@ö(x, y=1)\n@z\nclass K: pass\n@p(q)(r, s)\n@t[u, v]\n@w\nasync def g(): pass\n',
+    'if x:\n    a = "é"\n    b = 2\ndef f():\n    ü = "ñ"; c = 1\n    d = 3\nclass K:\n    é = 1  # ñ\n    e = 4\n',
+    'for i in x:\n    if i:\n        s = "é"\n        t = 1\n    else:\n        u = "ü" ;\n        v = 2\nwhile w:\n    try:\n        ä = "ö"\n        y = 1\n    finally:\n        z = "é"  # ü\n        q = 2\n',
+    'with a as b:\n    "é"\n    pass\ntry:\n    pass\nexcept E:\n    m = "ñ"\n    n = 1\nelse:\n    o = "é"; p = 1\nmatch v:\n    case 1:\n        r = "ü"\n        s = 2\n',
     'def g():\n    global ä, ö, ü\n    def h():\n        nonlocal ñ, é\n    global ç\n',
 ]
 
